@@ -346,6 +346,7 @@ def run(run: Run) -> None:
     us += [("fresh", 5, 2, True, (i, 4)) for i in range(4)]
     us += [("fresh", 6, 2, True, (i, 4)) for i in range(4)]
     us += [("fresh", 8, 1 if quick else 2, True, (i, 4)) for i in range(4)]
+    us += [("fresh", 9, 1, True, (i, 4)) for i in range(4)]
     us += [("computed", 3, 2 if quick else 3, True, None), ("computed", 4, 1 if quick else 2, False, None)]
     run.rule = ("BFS over public value operations {set/unset/reveal/unreveal, bulk set, bulk reset, bulk bound setters, negate} of the real object; "
                 "n=1,2 to closure (values {0,1}, bounds {-1,3}), n=3 depth <= 3 (thorough 4), n=5 depth <= 2, plus non-initial roots produced by a real "
